@@ -173,6 +173,10 @@ def _one_path(world, ex, con, fsrc, case, rets, raises, out):
         _run_region(ex, con, fsrc, frame, out)
         ex.all_callees |= ex.used_callees
         return
+    if con.selfcomp:
+        _run_selfcomp(ex, con, fsrc, frame, env, out)
+        ex.all_callees |= ex.used_callees
+        return
     try:
         value, retnode = ex.run_body(frame)
     except PyExc as pe:
@@ -231,6 +235,45 @@ def _run_region(ex, con, fsrc, frame, out):
         out.covers[(ex.case_name, "region-end")] = True
     finally:
         ex.frames.pop()
+
+
+def _run_selfcomp(ex, con, fsrc, frame, env, out):
+    """C12 `preferences only restrict`: for every setting S of the flags, on every path on which the body
+    returns r under S, the body run again from the same state with the flags cleared returns r' with
+    r' equal to r and of the same type.  External functions are uninterpreted, hence shared by both runs."""
+    slf = env["self"]
+    which = ex.choose([z3.BoolVal(True)] * len(con.selfcomp))
+    label = list(con.selfcomp)[which]
+    setting = con.selfcomp[label]
+    for f, v in setting.items():
+        slf.fields[f] = VBool(v)
+    try:
+        r1, _ = ex.run_body(Frame(fsrc, dict(env), contract=con, closure=frame.closure))
+    except PyExc:
+        out.covers[(ex.case_name, "selfcomp:%s:restricted-run-raises" % label)] = True
+        return
+    for f in setting:
+        slf.fields[f] = VBool(False)
+    text = "selfcomp:%s" % label
+    try:
+        r2, _ = ex.run_body(Frame(fsrc, dict(env), contract=con, closure=frame.closure))
+    except PyExc as pe:
+        ex.oblige("selfcomp", "%s:unrestricted_run_also_returns" % label, z3.BoolVal(False), exit_text=text,
+                  clause="what converts under %s converts without the flags (raised %s)" % (label, pe.exc.cls.name))
+        return
+    out.covers[(ex.case_name, text)] = True
+    saved = ex.spec_mode
+    ex.spec_mode = True
+    try:
+        same_val = ex.truthy(ex.world.ext.eq(ex, r1, r2))
+        try:
+            same_ty = ex.world.ext.is_(ex, ex.class_of(r1), ex.class_of(r2))
+        except Unsupported:
+            same_ty = z3.BoolVal(type(r1) is type(r2))
+    finally:
+        ex.spec_mode = saved
+    ex.oblige("selfcomp", "%s:equal_value" % label, same_val, exit_text=text, clause="r' == r")
+    ex.oblige("selfcomp", "%s:same_type" % label, same_ty, exit_text=text, clause="type(r') is type(r)")
 
 
 def _spec_frame(frame, pre_params):
